@@ -174,10 +174,22 @@ def typed_expected(p):
             for w in sp["walls"]:
                 if not w.get("noconsblock"):
                     absorp[w.get("consname", "%s_%s" % (w["layers"], w["name"]))] = n4x(w.get("abs", 0.6))
+    groups = {"materials": [[m["name"], m.get("group", "Materiales")] for m in sorted(p.get("materials", []), key=lambda m: m["name"])],
+              "layers": [[l["name"], l.get("group", "Capas")] for l in sorted(p.get("layers", []), key=lambda l: l["name"])],
+              "glasses": [[g["name"], g.get("group", "Vidrios")] for g in sorted(p.get("glasses", []), key=lambda g: g["name"])],
+              "frames": [[f["name"], f.get("group", "Marcos")] for f in sorted(p.get("frames", []), key=lambda f: f["name"])],
+              "gaps": [[g["name"], g.get("group", "Ventanas"), g.get("gglass", "Vidrios"), g.get("gframe", "Marcos")] for g in sorted(p.get("gaps", []), key=lambda g: g["name"])]}
+    lgroup = {l["name"]: l.get("group", "Capas") for l in p.get("layers", [])}
+    for fl in p.get("floors", []):
+        for sp in fl["spaces"]:
+            for w in sp["walls"]:
+                # the construction of an element is the layer set under another name: same group
+                lgroup[w.get("consname", "%s_%s" % (w["layers"], w["name"]))] = lgroup[w["layers"]]
+    groups["layers"] = [[k, lgroup[k]] for k in sorted(lgroup)]
     matx = [[m["name"], n4x(m["thick"]) if "thick" in m else -1, n4x(m["mu"]) if "mu" in m else -1] for m in sorted(p.get("materials", []), key=lambda m: m["name"]) if "r" not in m]
     return {"materials": mats, "wallcons": [wallcons[k] for k in sorted(wallcons)], "spaces": spaces, "walls": walls, "windows": windows,
             "wallgeo": wallgeo, "wincons": wincons, "glasses": glasses, "frames": frames, "shades": shades, "tbs": tbs, "floors": floors,
-            "absorptance": [[k, absorp[k]] for k in sorted(absorp)], "matx": matx}
+            "absorptance": [[k, absorp[k]] for k in sorted(absorp)], "matx": matx, "groups": groups}
 
 
 def fmtnum(v, comma, rng):
